@@ -80,6 +80,19 @@ def inner_kinds(script: Script) -> dict[str, Any]:
         async def __call__(self, key: Any = 0) -> Any:
             return await script.coro(key)
 
+    class FalsyMarked(list):  # type: ignore[type-arg]
+        """a callable object whose truth value is False (an empty callable collection), marked as a coroutine function"""
+
+        def __init__(self) -> None:
+            super().__init__()
+            inspect.markcoroutinefunction(self)
+
+        async def __call__(self, key: Any = 0) -> Any:
+            return await script.coro(key)
+
+        def __hash__(self) -> int:
+            return id(self)
+
     async def named(key: Any = 0) -> Any:
         return await script.coro(key)
 
@@ -94,6 +107,7 @@ def inner_kinds(script: Script) -> dict[str, Any]:
         "partial": functools.partial(with_prefix, "p"),
         "bound-method": Owner().method,
         "marked-object": Marked(),
+        "falsy-marked-object": FalsyMarked(),
         "timeout": timeout(60)(named),
         "throttle": throttle(limit=1000, period=0.001)(named),
         "retry-1": retry(limit=1)(named),
@@ -146,7 +160,7 @@ def check_cache(R: Any, monitor: str, only: str | None = None) -> None:
             inner = inner_kinds(script)[label]
             case = {"stacking": label, "outer": "cache"}
             try:
-                wrapped = cache(limit=4)(inner)
+                wrapped = cache(limit=4)(inner) if label != "falsy-marked-object" else cache(inner)  # the bare form decides by itself what it was given
                 async with ctx.scope("stacking"):
                     a = await wrapped(1)
                     b = await wrapped(1)
@@ -167,7 +181,9 @@ def check_transparent(R: Any, monitor: str, outer_name: str, only: str | None = 
     from haiway import ctx, throttle, timeout
 
     def outer(f: Any) -> Any:
-        return throttle(limit=5, period=0.001)(f) if outer_name == "throttle" else timeout(0.05)(f)
+        if outer_name == "throttle":
+            return throttle(f) if getattr(f, "__len__", None) is not None and len(f) == 0 else throttle(limit=5, period=0.001)(f)
+        return timeout(0.05)(f)
 
     async def main() -> None:
         for label in inner_kinds(Script([])):
@@ -207,7 +223,7 @@ def check_traced(R: Any, monitor: str, only: str | None = None) -> None:
         for label in inner_kinds(Script([])):
             if only is not None and label != only:
                 continue
-            if label in ("partial", "marked-object"):
+            if label in ("partial", "marked-object", "falsy-marked-object"):
                 continue  # no __name__ to name the scope after: unspecified
             script = Script(["value"])
             inner = inner_kinds(script)[label]
